@@ -168,3 +168,17 @@ def fills(shape, nfills, rnd):
         base = rnd.randrange(1 << 30)
         res.append(concretise(shape, lambda s, kk, tt, j, base=base, f=f: (base >> (3 * s)) + 7 * j + f if f else s + 2 * j))
     return res
+
+
+def is_nonfinite(e):
+    def nf(k, v):
+        if k == "f64" and len(v) == 8:
+            return (v[0] & 0x7f) == 0x7f and v[1] >= 0xf0
+        if k == "f32" and len(v) == 4:
+            return (v[0] & 0x7f) == 0x7f and v[1] >= 0x80
+        return False
+    if e["k"] in ("f64", "f32"):
+        return nf(e["k"], e["v"])
+    if e["k"] in ("xarr", "xobj") and e["ty"] in ("f64", "f32"):
+        return any(nf(e["ty"], x["v"]) for x in e["e"])
+    return False
